@@ -424,12 +424,15 @@ impl Check for PositionLedger {
         // layer 2: EngineState::update_from_account on a 2-exchange world; instrument 1 trades
         let defs = vec![
             InstrumentDef { exchange: 1, base: 0, quote: 2, kind: KindDef::Spot, unit: UnitDef::NoSpec },
-            InstrumentDef { exchange: 1, base: 1, quote: 2, kind: KindDef::Spot, unit: UnitDef::NoSpec },
+            // the traded instrument is a spot pair or a perpetual with contract size 0.01 / 10: fills,
+            // orders and positions are all in contracts, so the ledger is the same
+            InstrumentDef { exchange: 1, base: 1, quote: 2, kind: match case.fills[0].dt % 3 { 0 => KindDef::Spot, 1 => KindDef::Perpetual { settle: 1 }, _ => KindDef::Perpetual { settle: 2 } }, unit: UnitDef::NoSpec },
             InstrumentDef { exchange: 2, base: 0, quote: 3, kind: KindDef::Spot, unit: UnitDef::NoSpec },
         ];
         let indexed = world::index(&defs);
         let mut state = world::engine_state(&indexed, TradingState::Disabled);
         let pristine = state.clone();
+        rep.class_if(case.fills[0].dt % 3 != 0, "engine_layer_instrument_is_a_perpetual_with_contract_size_not_1");
         let inst = InstrumentIndex(1);
         let exchange: ExchangeIndex = indexed.instruments()[1].value.exchange.key;
         let mut l2 = Ledger::default();
